@@ -14,6 +14,36 @@ T = ("thorough",)
 QT = ("quick", "thorough")
 
 PLAN = {
+    "C01": {
+        "level": "exploration",
+        "rule": "random histories (apply/ite/quantify/substitute/restrict/cofactor/clone/drop/drop-on-thread/gc/add_vars/"
+                "set_var_order[_seq]/from-table) over 3..7 variables on bdd, bcdd, zbdd; after every step the new handle is "
+                "compared (==, hash, cmp) with every live handle against its model table; full audits every 25 steps. "
+                "distinct = distinct (kind, operation, non-constant result table, #vars) observed.",
+        "assumptions": ["truth-table model is the specification", "ZBDD histories do not reorder (known finding C08-zbdd-level-swap-skipped-level)"],
+        "jobs": [
+            {"monitor": "c01_hist", "variant": "rel", "shards": 16},
+            {"monitor": "c01_hist", "variant": "dbg", "shards": 16},
+        ],
+        "require_counters": {"all": ["gcs_that_freed", "audits"]},
+    },
+    "C08": {
+        "level": "exploration",
+        "exhaustive": True,
+        "rule": "n=3: all 6 source orders x all 12 requests (total and partial, len>=2) x {set_var_order, _seq} with all 256 "
+                "functions alive; n=4: all 24 sources x total requests (+partial sampled in quick, all in thorough) with "
+                "sampled live functions and dead nodes; n=5..8 random. Oracle: requested relative order, brute-force minimal "
+                "adjacent swaps, tables unchanged, structure + ref-count audit, node_count minimal, rebuilt function == "
+                "surviving handle, then ops + gc + second reordering + teardown. distinct = distinct (kind, source, request, "
+                "variant) cases needing >= 1 swap.",
+        "assumptions": ["minimality brute-forced for n <= 7 only", "ZBDD cases are cut short at the first handle whose family changed (known finding)"],
+        "jobs": [
+            {"monitor": "c08_exh", "variant": "rel", "shards": 32},
+            {"monitor": "c08_rand", "variant": "rel", "shards": 16},
+            {"monitor": "c08_rand", "variant": "dbg", "shards": 16, "param": "01"},  # ZBDD excluded: known finding aborts under debug assertions
+        ],
+        "require_counters": {"all": ["reorder_cases", "gcs_that_freed"]},
+    },
     "C02": {
         "level": "exploration",
         "exhaustive": True,
@@ -32,6 +62,22 @@ PLAN = {
 HOOK_COMMITS = []
 
 MANIFEST_TEXT = {
+    "C01": {
+        "text": "Held on every generated history: after each of several thousand steps per run the result handle is compared "
+                "pairwise (==, Hash, Ord) with all live handles against independent truth tables, across gc, add_vars, "
+                "reordering, drops on other threads; also with OxiDD's debug assertions enabled.",
+        "design_ref": "DESIGN.md section 5 / C01",
+        "note": "Trusted: truth-table model, interpreter. Histories are sampled; equality only checked among handles the harness holds.",
+        "technique": "runtime monitoring: history generator + reference-model oracle + pairwise canonicity check after every step",
+    },
+    "C08": {
+        "text": "Held on all enumerated (n=3 complete, n=4 all total requests) and sampled reorderings: order, brute-force "
+                "swap minimality, every live function unchanged, structural and reference-count audits, canonicity of "
+                "rebuilt functions, follow-up operations/gc/second reordering. One recorded known finding (ZBDD).",
+        "design_ref": "DESIGN.md section 5 / C08",
+        "note": "Trusted: truth tables, audits. MTBDD/TDD reordering covered by their own monitors; concurrent bubble sort by the large-diagram job.",
+        "technique": "runtime monitoring: exhaustive small-scope enumeration of reorderings with model, audit and minimal-swap oracles",
+    },
     "C02": {
         "text": "Held on every executed case: exhaustive for 3 variables (all operand pairs, all/sampled ite triples, all "
                 "orders, 3 kinds, 1 and 4 threads with maximal split depth) against a pointwise truth-table model, eval "
